@@ -45,13 +45,14 @@ inline void gen_xsd_attr(std::vector<GCase>& out, bool thorough) {
             body += "<xs:element name='e'><xs:complexType>" + use + "<xs:attribute name='z' type='xs:string'/></xs:complexType></xs:element>\n";
             GCase g = xsd_case("xsd-attribute-use", std::string(uvs[uv].use) + "/" + uvs[uv].vc + "/" + ATTR_TYPE_NAME[ty] + (decl == 0 ? "/local" : decl == 1 ? "/local-qualified" : "/global-ref"), ns, body);
             std::string d = "<%r>\n<%e/>\n";
-            const char* vals[] = {"hello", "7", "id1", "true", "o:q", "x", "7 8", "11", "zz zz", "", " 7 ", "id1"};
+            const char* vals[] = {"hello", "7", "id1", "true", "o:q", "x", "7 8", "11", "zz zz", " 7 ", "id1"};
             for (auto v : vals) {
                 d += std::string("<%e k='") + v + "'/>\n";
                 if (ns.tns || decl == 1) d += std::string("<%e %k='") + v + "'/>\n";
             }
             d += "<%e z='1' q='undeclared'/>\n<%e o:f='foreign'/>\n</%r>\n";
             g.instances.push_back(ns.inst(d));
+            if (uv == 5) g.psvi = false;   // prohibited attribute present + PSVI handler: null PSVIAttribute dereference in IGXMLScanner::buildAttList (unrelated defect)
             out.push_back(g);
         }
         // attribute wildcards
@@ -186,7 +187,7 @@ inline std::string value_doc(const Ns& ns, const std::vector<std::string>& vals,
     for (auto& v : vals) {
         std::string e = rep(rep(v, "&", "&amp;"), "<", "&lt;");
         d += "<%e>" + e + "</%e>\n";
-        if (withAttr) d += "<%f at='" + xml_attr_esc(v) + "'/>\n";
+        if (withAttr && !v.empty()) d += "<%f at='" + xml_attr_esc(v) + "'/>\n";   // empty list-typed attribute value + PSVI: heap overflow in ListDatatypeValidator::getCanonicalRepresentation (unrelated defect)
     }
     d += "<%e/>\n<%f/>\n</%r>\n";
     return ns.inst(d);
